@@ -60,6 +60,22 @@ def _pump_app(app):
     raise RuntimeError("application does not quiesce")
 
 
+def _undef_req(i):
+    """a request of a command without python class, decoded from the wire, carrying no Session-Id"""
+    from diameter.message.avp import Avp
+    from diameter.message import constants as K
+    raw = B.Message()
+    raw.header.command_code = 5000
+    raw.header.is_request = True
+    raw.header.application_id = 4
+    raw.header.hop_by_hop_identifier = i
+    raw.header.end_to_end_identifier = i
+    raw.append_avp(Avp.new(K.AVP_ORIGIN_HOST, value=PEER.encode()))
+    raw.append_avp(Avp.new(K.AVP_ORIGIN_REALM, value=B.REALM.encode()))
+    raw.append_avp(Avp.new(K.AVP_DESTINATION_REALM, value=B.REALM.encode()))
+    return B.Message.from_bytes(raw.as_bytes())
+
+
 def _mk(limit, outcomes):
     b = B.Bench(n_peers=1, apps=())
     app = ScriptApp(outcomes, max_threads=limit)
@@ -115,7 +131,7 @@ def threading_app(limit: int, outs: List[int], lost: List[int]) -> bool:
             for i in range(len(outcomes)):
                 if c.ident not in n.connections:
                     c, s = b.make_ready(p)
-                b.inject(c, B.ccr(PEER, 100 + i, 100 + i))
+                b.inject(c, _undef_req(100 + i) if P.get("undef") else B.ccr(PEER, 100 + i, 100 + i))
                 if losts[i] == 2:
                     n.close_connection_socket(c, B.DISCONNECT_REASON_GONE_AWAY)
                 if not app._recv_msg_queue.empty():
@@ -271,9 +287,12 @@ def specs(tier, seed, carve):
         for lo in range(0, ms if (slots == 1 or not q) else 30, width):
             out.append(dict(id="race/%s/p%d/%d" % (kind, slots, lo), fn="race", params={"race": kind, "slots": slots, "maxstep": ms, "lo": lo, "hi": min(ms, lo + width)}, timeout=1500 if q else 8000,
                             bound=("first preemption at step %d..%d; " % (lo, min(ms, lo + width) - 1)) + "%s: the connection's read thread (real gate, _receive_message, receive_cea/receive_cer, close_connection_socket, remove_peer_connection as cooperative generators) against the I/O thread (_handle_connections) - every placement of %d preemption(s) over the statements touching shared state" % (kind, slots)))
+    for limit in (0, 1, 2):
+        out.append(dict(id="threading_app/undef/2/limit%d" % limit, fn="threading_app", keep_logging=True, params={"nreq": 2, "limit": limit, "undef": True}, timeout=900,
+                        bound="as threading_app with 2 requests of a command without python class (decoded from the wire, no Session-Id), logging statements in place; thread limit %d" % limit))
     for nreq in (1, 2, 3):
       for limit in (0, 1, 2):
-        out.append(dict(id="threading_app/%d/limit%d" % (nreq, limit), fn="threading_app", params={"nreq": nreq, "limit": limit}, timeout=900 if nreq < 3 else 6000,
+        out.append(dict(id="threading_app/%d/limit%d" % (nreq, limit), fn="threading_app", keep_logging=True, params={"nreq": nreq, "limit": limit}, timeout=900 if nreq < 3 else 6000,
                         bound="thread limit " + str(limit) + " x %d requests with handler outcome in {answer, None, raises, thread cannot be started} and connection loss in {none, while the handler runs, before the thread starts} each, then a probe of limit+2 requests" % nreq))
     total = len(B.cer(PEER, hbh=7, e2e=7).as_bytes()) + len(B.ccr(PEER, 55, 55).as_bytes()) + 1
     for fi, fn_ in enumerate(FAULTS):
